@@ -31,7 +31,6 @@ macro_rules! shim4 { ($name:ident, $shape:ident) => { verus!{
     #[verifier::external_body]
     fn $name<'a, FiltersIter>(mask: NetworkFilterMask, filters: FiltersIter, hostname: Option<&'a str>, request: &request::Request) -> (r: bool)
         where FiltersIter: Iterator<Item = &'a str> + ExactSizeIterator
-        requires hostname is Some,
         ensures r == shape_result(Shape::$shape, mask, filters, hostname, 0, request)
     { unimplemented!() }
 } } }
@@ -53,7 +52,6 @@ fn check_pattern_regex_filter<'a, FiltersIter>(mask: NetworkFilterMask, filters:
 #[verifier::external_body]
 fn check_pattern_hostname_anchor_regex_filter<'a, FiltersIter>(mask: NetworkFilterMask, filters: FiltersIter, hostname: Option<&'a str>, key: u64, request: &request::Request, regex_manager: &mut RegexManager) -> (r: bool)
     where FiltersIter: Iterator<Item = &'a str> + ExactSizeIterator
-    requires hostname is Some,
     ensures r == shape_result(Shape::HostRegex, mask, filters, hostname, key, request)
 { unimplemented!() }
 
@@ -81,9 +79,6 @@ pub open spec fn is_host_shape(s: Shape) -> bool {
 //@ RET r
 //@ SAFETY C02.dispatch.safety
 //@ SPEC
-    requires
-        // filter_wf: a hostname-anchored rule carries a hostname (else the matchers hit unreachable!())
-        mask.has(NetworkFilterMask::IS_HOSTNAME_ANCHOR) ==> hostname is Some,
     ensures
         r == shape_result(shape_of(mask), mask, filters,
                           if is_host_shape(shape_of(mask)) { hostname } else { None },
